@@ -289,7 +289,7 @@ def check_must_raise(ctx, repo, qual=NEW):
                           result=pairs_of(out[1]))
 
 
-@rule("C15.must-raise", props=["C15"], min_instances=9, mutants=[
+@rule("C15.must-raise", props=["C15", "C13"], min_instances=9, mutants=[
     ("graded check dropped", ("multivector", "if algebra.graded and keys and keys != algebra.indices_for_grades[grades]:", "if False and keys != algebra.indices_for_grades[grades]:")),
     ("graded check compares key sets", ("multivector", "if algebra.graded and keys and keys != algebra.indices_for_grades[grades]:", "if algebra.graded and keys and set(keys) != set(algebra.indices_for_grades[grades]):")),
     ("subset check dropped", ("multivector", "        if not set(keys) <= set(algebra.indices_for_grades[grades]):\n            raise ValueError(f\"All keys should be of grades {grades}.\")\n", "")),
